@@ -4,6 +4,10 @@ From Coq Require Import List Arith Bool.
 From TT Require Import RingSig SumN Mat Dense.
 Import ListNotations.
 
+(* exception classes, as the harness canonicalises them *)
+Inductive errc := EShape | ERank | ETypes | EArgs | ENotImpl | ETorch | EPyType | EPyUnbound
+                | EPyAttr | EPyIndex | EPyValue | EModel (* outside the modelled domain *).
+
 Section Core.
 Context {R : Type} {RO : RingOps R}.
 Open Scope R_scope.
